@@ -52,12 +52,16 @@ theorem ConnOk.mono {gr bi snt res sr snt' res' sr' : Bool} {cn : Conn}
     resolved_closed := fun a => h.resolved_closed (h2 a)
     resolved_npending := fun a => h.resolved_npending (h2 a) }
 
-theorem callOk_new (chunks : List (List Item)) : CallOk (Call.new chunks) :=
+theorem callOk_new (chunks : List (List Item)) (req : Nat) : CallOk (Call.new chunks req) :=
   ⟨by simp [Call.new], by simp [Call.new], by simp [Call.new]⟩
 
 theorem connOk_new (gr bi snt res sr p : Bool) (hp : res = true → p = false) :
     ConnOk gr bi snt res sr (Conn.new p sr) := by
   constructor <;> simp_all [Conn.new]
+
+theorem connOk_newTls (gr bi snt res sr p go bad : Bool) (hp : res = true → p = false) :
+    ConnOk gr bi snt res sr (Conn.newTls p sr go bad) := by
+  constructor <;> simp_all [Conn.newTls, Conn.new]
 
 theorem good_init (g b a : Bool) : Good (init g b a) := by
   constructor <;> simp [init]
@@ -197,6 +201,38 @@ theorem good_step {s s' : State} {l : Label} (hg : Good s) (h : step s l = some 
     · simp only [List.mem_singleton] at hx
       subst hx
       exact connOk_new _ _ _ _ _ _ (by intro hr; have hr' : s.resolved = true := hr; simp [hr'])
+  | offerTls go bad =>
+    simp only [step, Option.some.injEq] at h
+    subst h
+    refine { hg with conns := ?_ }
+    intro x hx
+    rcases List.mem_append.1 hx with hx | hx
+    · exact hg.conns x hx
+    · simp only [List.mem_singleton] at hx
+      subst hx
+      exact connOk_newTls _ _ _ _ _ _ _ _ (by intro hr; have hr' : s.resolved = true := hr; simp [hr'])
+  | clientHello c =>
+    refine good_updConn hg h ?_
+    intro cn _ _ hk
+    exact { hk with watcher_acc := hk.watcher_acc }
+  | tlsTake c =>
+    simp only [step] at h
+    split at h
+    · refine good_updConn hg h ?_
+      intro cn _ _ hk
+      exact { hk with watcher_acc := hk.watcher_acc }
+    · cases h
+  | tlsDone c =>
+    refine good_updConn hg h ?_
+    intro cn _ _ hk
+    exact { hk with watcher_acc := hk.watcher_acc }
+  | tlsFail c =>
+    refine good_updConn hg h ?_
+    intro cn _ hgd hk
+    simp only [Bool.and_eq_true] at hgd
+    exact { hk with
+      pending_nacc := fun hp => by simp at hp
+      resolved_npending := fun _ => rfl }
   | sigFire =>
     simp only [step] at h
     split at h
@@ -217,7 +253,7 @@ theorem good_step {s s' : State} {l : Label} (hg : Good s) (h : step s l = some 
     split at h
     · cases h; exact { hg with conns := hg.conns }
     · cases h
-  | issue c chunks =>
+  | issue c chunks req =>
     refine good_updConn hg h ?_
     intro cn _ _ hk
     refine { hk with started_hs := ?_, closed_calls := ?_, calls_ok := ?_ }
@@ -232,7 +268,13 @@ theorem good_step {s s' : State} {l : Label} (hg : Good s) (h : step s l = some 
     · intro k hkm
       rcases List.mem_append.1 hkm with hkm | hkm
       · exact hk.calls_ok k hkm
-      · simp only [List.mem_singleton] at hkm; subst hkm; exact callOk_new _
+      · simp only [List.mem_singleton] at hkm; subst hkm; exact callOk_new _ _
+  | reqSend c j =>
+    refine good_updCall hg h ?_
+    intro cn _ k hkm hkj _ hk
+    have hc := hk.calls_ok k hkm
+    exact connOk_setCall hk hkj (hk.started_hs k hkm)
+      (fun a b => hk.closed_calls a b k hkm) ⟨hc.plan_eq, hc.recv_le, hc.unstarted⟩
   | permit c j =>
     refine good_updCall hg h ?_
     intro cn _ k hkm hkj _ hk
@@ -261,17 +303,12 @@ theorem good_step {s s' : State} {l : Label} (hg : Good s) (h : step s l = some 
     have hc := hk.calls_ok k hkm
     exact connOk_setCall hk hkj (hk.started_hs k hkm)
       (fun _ _ _ hcan => by simp at hcan) ⟨hc.plan_eq, hc.recv_le, hc.unstarted⟩
-  | ageTick =>
+  | ageTick c =>
     simp only [step] at h
     split at h
-    · cases h
-      refine { hg with conns := ?_ }
-      intro x hx
-      obtain ⟨cn, hcn, rfl⟩ := List.mem_map.1 hx
-      have hk := hg.conns cn hcn
-      split
-      · exact { hk with watcher_acc := hk.watcher_acc }
-      · exact hk
+    · refine good_updConn hg h ?_
+      intro cn _ _ hk
+      exact { hk with watcher_acc := hk.watcher_acc }
     · cases h
   | loopSig =>
     simp only [step] at h
@@ -500,15 +537,20 @@ theorem good_run {s s' : State} {ls : List Label} (hg : Good s) (h : run s ls = 
 theorem step_cfg {s s' : State} {l : Label} (h : step s l = some s') :
     s'.cfgGraceful = s.cfgGraceful ∧ s'.cfgBiased = s.cfgBiased ∧ s'.cfgAge = s.cfgAge := by
   cases l <;> simp only [step] at h
-  case offer | freeRun => cases h; exact ⟨rfl, rfl, rfl⟩
-  case sigFire | endIncoming | acceptErr | ageTick | loopSig | loopErr | loopEnd | afterLoop
+  case offer | offerTls | freeRun => cases h; exact ⟨rfl, rfl, rfl⟩
+  case sigFire | endIncoming | acceptErr | loopSig | loopErr | loopEnd | afterLoop
       | resolve =>
     split at h
     · cases h; exact ⟨rfl, rfl, rfl⟩
     · cases h
-  case issue | peerDrop | connSig | connAge | connBreak | connDropWatcher | hsDone | final =>
+  case ageTick | tlsTake =>
+    split at h
+    · obtain ⟨_, _, _, rfl⟩ := updConn_some h; exact ⟨rfl, rfl, rfl⟩
+    · cases h
+  case issue | peerDrop | connSig | connAge | connBreak | connDropWatcher | hsDone | final
+      | clientHello | tlsDone | tlsFail =>
     obtain ⟨_, _, _, rfl⟩ := updConn_some h; exact ⟨rfl, rfl, rfl⟩
-  case permit | cancel | callStart | produce | deliver =>
+  case permit | reqSend | cancel | callStart | produce | deliver =>
     obtain ⟨_, _, _, _, _, rfl⟩ := updCall_some h; exact ⟨rfl, rfl, rfl⟩
   case loopAccept =>
     split at h
